@@ -26,6 +26,13 @@ def worker_main():
     # keep stray prints of the code under test away from the result channel
     devnull = os.open(os.devnull, os.O_WRONLY)
     os.dup2(devnull, 1)
+    try:
+        import dask
+
+        # the engine is single-threaded by design: delayed graphs are computed synchronously
+        dask.config.set(scheduler="synchronous")
+    except Exception:  # noqa: BLE001
+        pass
     for line in sys.stdin:
         job = json.loads(line)
         try:
